@@ -38,7 +38,27 @@ Definition inst_unique (s : state) (x : id) : option bool :=
   | None => None
   end.
 
-(* uniquify._make_instance_unique *)
+(* uniquify._get_unique_name_modifier(definition): the first counter value k, counting up from the module
+   counter, such that no definition of the library carries the name nm ++ "_sdn_unique_<k>" and - when the
+   cell has an EDIF identifier idv - none carries an identifier equal, without case, to idv ++ "_sdn_unique_<k>".
+   The Python loop is a [while True]; here the search has fuel (two candidates per definition of the
+   library plus one always suffice: Proofs/UniqFresh.v, fresh_ctr_total) and None = out of fuel. *)
+Definition name_taken (s : state) (defs : list id) (v : str) : bool :=
+  existsb (fun c => match get_str s c str_NAME with Some w => str_eqb w v | None => false end) defs.
+Definition ident_taken (s : state) (defs : list id) (v : str) : bool :=
+  existsb (fun c => match get_str s c str_IDENT with Some w => str_eqb (lower w) (lower v) | None => false end) defs.
+Definition suffix_taken (s : state) (defs : list id) (nm : str) (idv : option str) (suffix : str) : bool :=
+  name_taken s defs (nm ++ suffix) ||
+  match idv with Some i => ident_taken s defs (i ++ suffix) | None => false end.
+Fixpoint fresh_ctr (fuel : nat) (s : state) (defs : list id) (nm : str) (idv : option str) (k : nat) : option nat :=
+  match fuel with
+  | O => None
+  | S f => if suffix_taken s defs nm idv (str_uniq ++ dec k) then fresh_ctr f s defs nm idv (S k) else Some k
+  end.
+Definition fresh_fuel (defs : list id) : nat := S (length defs + length defs).
+
+(* uniquify._make_instance_unique; the library of the cell is the same before and after Definition.clone
+   (Proofs/UniqNames.v, rd_clone_definition), so [lib] also stands for definition.library in the helper *)
 Definition make_instance_unique (x : xstate) (inst : id) : XR :=
   let s := st x in
   match iref s inst with
@@ -53,13 +73,18 @@ Definition make_instance_unique (x : xstate) (inst : id) : XR :=
             let named : XR :=
               match get_str (st x1) d str_NAME with
               | Some nm =>
-                  let suffix := str_uniq ++ dec (uniq_ctr x1) in
-                  let x2 := mkX (st x1) (S (uniq_ctr x1)) (flat_ctr x1) in
-                  liftR x2 (dict_set (st x2) d' str_NAME (VStr (nm ++ suffix))) (fun x3 =>
-                    match get_str (st x3) d' str_IDENT with
-                    | Some idv => liftR x3 (dict_set (st x3) d' str_IDENT (VStr (idv ++ suffix))) (fun x4 => (x4, None))
-                    | None => (x3, None)
-                    end)
+                  let defs := kids (st x1) RDefs lib in
+                  match fresh_ctr (fresh_fuel defs) (st x1) defs nm (get_str (st x1) d str_IDENT) (uniq_ctr x1) with
+                  | None => (x1, Some XOutOfFuel)
+                  | Some k =>
+                      let suffix := str_uniq ++ dec k in
+                      let x2 := mkX (st x1) (S k) (flat_ctr x1) in
+                      liftR x2 (dict_set (st x2) d' str_NAME (VStr (nm ++ suffix))) (fun x3 =>
+                        match get_str (st x3) d' str_IDENT with
+                        | Some idv => liftR x3 (dict_set (st x3) d' str_IDENT (VStr (idv ++ suffix))) (fun x4 => (x4, None))
+                        | None => (x3, None)
+                        end)
+                  end
               | None => (x1, None)
               end in
             match named with
